@@ -241,6 +241,106 @@ theorem tsd_roundtrip_without_time (start : Nat) (slots : Slots) (d0 : Dec) (lo 
           · exact Or.inr (Or.inl (by omega)))
     simpa using this
 
+/-- **Seek, dense prefix.** `Seek(s)` on a freshly reset decoder (any object) succeeds when every slot
+before `s` holds a value, and leaves the decoder exactly in front of `s`: the slot-addressed reads
+that follow (`GetValue(s), GetValue(s+1), …`) return the encoded entries, i.e. `Seek` followed by
+reads has the `GetValue` semantics of `tsd_slot_read_agrees`. -/
+theorem tsd_seek_then_read (start : Nat) (vs : List Nat) (rest : Slots) (d0 : Dec) (k : Nat)
+    (hvs : ∀ v ∈ vs, v < 2 ^ 64) (hrest : ∀ v, some v ∈ rest → v < 2 ^ 64) (hne : rest ≠ [])
+    (hb : start + (vs.length + rest.length) ≤ 65536) (hn : vs.length + rest.length ≤ 65535) :
+    ∃ bytes d', tsdEncode start (vs.map some ++ rest) = some bytes ∧
+      (d0.reset bytes).seek (start + vs.length) = (true, d') ∧
+      (d'.getValues (List.range' (start + vs.length) k)).1
+        = (List.range' (start + vs.length) k).map (slotAt start (vs.map some ++ rest)) := by
+  have hrl : 0 < rest.length := List.length_pos_iff.mpr hne
+  have hvs' : ∀ v ∈ vs, v < two64 := fun v hv => by simpa [two64] using hvs v hv
+  have hok : slotsOk (vs.map some ++ rest) := by
+    intro v hv
+    simp only [List.mem_append, List.mem_map] at hv
+    rcases hv with ⟨a, ha, hav⟩ | hv
+    · injection hav with hav; subst hav; exact hvs' a ha
+    · simpa [two64] using hrest v hv
+  have hlen : (vs.map some ++ rest).length = vs.length + rest.length := by simp
+  obtain ⟨out, hbytes, _, hout, hlt, pad, hbits⟩ :=
+    Enc.bytes_spec start (vs.map some ++ rest) hok (by simp [hne]) (by omega) (by omega) (by omega)
+  have hat := Dec.reset_at d0 start (start + (vs.map some ++ rest).length - 1) out (by omega) (by omega) hout hlt
+  rw [hbits] at hat
+  obtain ⟨d', hloop, hat'⟩ := Dec.seekLoop_dense vs rest 0 Xor.Enc.fresh _ start _ _ 65537 hat hvs'
+    (by omega) (by omega) (by omega) (by omega)
+  refine ⟨_, d', hbytes, ?_, ?_⟩
+  · unfold Dec.seek
+    have c : ¬ (start + vs.length > (d0.reset (le16 start ++ le16 (start + (vs.map some ++ rest).length - 1) ++ out)).endTime ∨
+        start + vs.length < (d0.reset (le16 start ++ le16 (start + (vs.map some ++ rest).length - 1) ++ out)).startTime) := by
+      rw [hat.en, hat.st]; omega
+    rw [if_neg c]
+    simpa using hloop
+  · have hslot : slotsOk rest := fun v hv => by simpa [two64] using hrest v hv
+    have := Dec.getValues_spec k (start + vs.length) rest (0 + vs.length) _ d' start
+      (start + (vs.map some ++ rest).length - 1) _ hat' hslot (by omega) (by omega) (by omega)
+      (Or.inr (Or.inl (by omega)))
+    rw [this]
+    apply List.map_congr_left
+    intro x hx
+    have hx' := (List.mem_range'_1.mp hx).1
+    have hd : (vs.map some ++ rest).drop vs.length = rest := by
+      rw [List.drop_left' (by simp)]
+    have := slotAt_drop start (vs.map some ++ rest) vs.length x hx'
+    rw [hd] at this
+    simpa using this
+
+/-- **Seek across a gap.** When an empty slot lies before the target, `Seek` returns `false` after
+consuming the present slots and that empty one; the decoder stays consistent: reads continue
+correctly from the slot after the gap. -/
+theorem tsd_seek_gap (start : Nat) (vs : List Nat) (rest : Slots) (d0 : Dec) (s k : Nat)
+    (hvs : ∀ v ∈ vs, v < 2 ^ 64) (hrest : ∀ v, some v ∈ rest → v < 2 ^ 64)
+    (hb : start + (vs.length + 1 + rest.length) ≤ 65536) (hn : vs.length + 1 + rest.length ≤ 65535)
+    (hs1 : start + vs.length < s) (hs2 : s ≤ start + (vs.length + 1 + rest.length) - 1) :
+    ∃ bytes d', tsdEncode start (vs.map some ++ none :: rest) = some bytes ∧
+      (d0.reset bytes).seek s = (false, d') ∧
+      (d'.getValues (List.range' (start + vs.length + 1) k)).1
+        = (List.range' (start + vs.length + 1) k).map (slotAt start (vs.map some ++ none :: rest)) := by
+  have hvs' : ∀ v ∈ vs, v < two64 := fun v hv => by simpa [two64] using hvs v hv
+  have hok : slotsOk (vs.map some ++ none :: rest) := by
+    intro v hv
+    simp only [List.mem_append, List.mem_map, List.mem_cons] at hv
+    rcases hv with ⟨a, ha, hav⟩ | hv | hv
+    · injection hav with hav; subst hav; exact hvs' a ha
+    · exact absurd hv (by simp)
+    · simpa [two64] using hrest v hv
+  have hlen : (vs.map some ++ none :: rest).length = vs.length + 1 + rest.length := by simp; omega
+  obtain ⟨out, hbytes, _, hout, hlt, pad, hbits⟩ :=
+    Enc.bytes_spec start (vs.map some ++ none :: rest) hok (by simp) (by omega) (by omega) (by omega)
+  have hat := Dec.reset_at d0 start (start + (vs.map some ++ none :: rest).length - 1) out (by omega) (by omega) hout hlt
+  rw [hbits] at hat
+  obtain ⟨d', hloop, hat'⟩ := Dec.seekLoop_gap vs rest 0 Xor.Enc.fresh _ start _ _ 65537 s hat hvs'
+    (by omega) (by omega) (by omega) (by omega) (by omega)
+  refine ⟨_, d', hbytes, ?_, ?_⟩
+  · unfold Dec.seek
+    have c : ¬ (s > (d0.reset (le16 start ++ le16 (start + (vs.map some ++ none :: rest).length - 1) ++ out)).endTime ∨
+        s < (d0.reset (le16 start ++ le16 (start + (vs.map some ++ none :: rest).length - 1) ++ out)).startTime) := by
+      rw [hat.en, hat.st]; omega
+    rw [if_neg c]
+    exact hloop
+  · have hslot : slotsOk rest := fun v hv => by simpa [two64] using hrest v hv
+    have := Dec.getValues_spec k (start + vs.length + 1) rest (0 + vs.length + 1) _ d' start
+      (start + (vs.map some ++ none :: rest).length - 1) _ hat' hslot (by omega) (by omega) (by omega)
+      (Or.inr (Or.inl (by omega)))
+    rw [this]
+    apply List.map_congr_left
+    intro x hx
+    have hx' := (List.mem_range'_1.mp hx).1
+    have hd : (vs.map some ++ none :: rest).drop (vs.length + 1) = rest := by
+      have : vs.map some ++ none :: rest = (vs.map some ++ [none]) ++ rest := by simp
+      rw [this, List.drop_left' (by simp)]
+    have := slotAt_drop start (vs.map some ++ none :: rest) (vs.length + 1) x (by omega)
+    rw [hd] at this
+    have e : start + (0 + vs.length + 1) = start + (vs.length + 1) := by omega
+    rw [e]; exact this
+
+/-- stated guard: a target outside `[startTime, endTime]` is refused without touching the decoder -/
+theorem tsd_seek_out_of_range (d : Dec) (s : Nat) (h : s > d.endTime ∨ s < d.startTime) : d.seek s = (false, d) := by
+  simp [Dec.seek, h]
+
 /-- stated guard: an encoder into which no slot was appended returns `nil` (no block at all) -/
 theorem tsd_empty_is_nil (start : Nat) : tsdEncode start [] = none := Enc.bytes_empty start
 
